@@ -239,6 +239,11 @@ def range_boundary_cases(rng, _n):
     return cases
 
 
+def set_palette_cases(rng, n):
+    from checks import c10
+    return c10.macro_cases(rng, n)
+
+
 def check(ck, aspect, theorems, t2_parts=("body", "status", "validity")):
     ck.prove(theorems)
     ck.build_harness("inproc")
@@ -293,7 +298,8 @@ def check(ck, aspect, theorems, t2_parts=("body", "status", "validity")):
                                 ("map-wildcard-value", map_wild_cases, "map entries whose value pattern is `_`: the key is still required"),
                                 ("wildcard-struct-sibling", wildcard_shadow_cases, "a wildcard struct next to a sibling field of the same name"),
                                 ("eq-literal-text", eq_literal_text_cases, "expected expressions with blanks and `::` inside string literals"),
-                                ("range-boundary", range_boundary_cases, "integer and float ranges against values at and next to every bound")):
+                                ("range-boundary", range_boundary_cases, "integer and float ranges against values at and next to every bound"),
+                                ("c10-macro", set_palette_cases, "set patterns from a palette of element patterns over every listed order of small collections")):
         fam = t3.run_corpus(ck, name, 0, per_bin=40, positions=maker)
         stats, mism = t3.compare(ck, fam, name)
         for m in mism:
